@@ -250,10 +250,10 @@ func cmdCheck(args []string) {
 		vac = append(vac, g.vacuityObligations()...)
 	}
 
-	timeout := 10
+	timeout := 20
 	useCache := !*noCache
 	if *tier == "thorough" {
-		timeout = 60
+		timeout = 90
 		useCache = false
 	}
 	d := NewDischarger(filepath.Join(*verif, "cache"), useCache, timeout)
